@@ -3,9 +3,12 @@ package main
 import (
 	"fmt"
 	"math"
+	"math/big"
 	"sort"
 	"strings"
+	"time"
 
+	"github.com/fxamacker/cbor/v2"
 	"github.com/ldclabs/cose/key"
 )
 
@@ -69,7 +72,20 @@ func qGval(v any) string {
 			xs = append(xs, qZ(int64(e)))
 		}
 		return "(VOps (Some " + qList(xs) + "))"
+	case cbor.Tag:
+		return "(VTag " + qU(x.Number) + " " + qGval(x.Content) + ")"
+	case cbor.SimpleValue:
+		return "(VSimple " + qU(uint64(x)) + ")"
+	case big.Int:
+		return "(VBig " + qBig(&x) + ")"
+	case *big.Int:
+		return "(VBig " + qBig(x) + ")"
+	case time.Time:
+		return `(VOther "time.Time")`
 	case map[any]any:
+		if !labelKeysOnly(x) {
+			return `(VOther "map[any]any with non-label keys")`
+		}
 		return "(VMap " + qMap(x) + ")"
 	case key.CoseMap:
 		return "(VMap " + qMap(x) + ")"
@@ -129,4 +145,22 @@ func describe(v any) string {
 		s = s[:120] + "..."
 	}
 	return strings.ReplaceAll(s, "\n", " ")
+}
+
+func qBig(b *big.Int) string {
+	if b.Sign() < 0 {
+		return "(" + b.String() + ")"
+	}
+	return b.String()
+}
+
+func labelKeysOnly(m map[any]any) bool {
+	for k := range m {
+		switch k.(type) {
+		case int, int8, int16, int32, int64, uint, uint8, uint16, uint32, uint64, string:
+		default:
+			return false
+		}
+	}
+	return true
 }
